@@ -17,10 +17,10 @@ CLAIMED = {
          "Client half: 25 clientFile methods send exactly one T-message with their arguments and fid and return the reply's fields (version gating of the u-variants not covered). ExtractErrno's body is not verified (its contract is assumed; listed as UNVERIFIED in the evidence); fmt.Errorf(%w)/errors.Join facts are assumed at DecRef's call sites. Backends are assumed to satisfy the File interface contracts. Trusted: front end, VC generator, solvers.",
          "4-C03"),
  "C04": ("Proof, inductive over histories: every handler is verified against transition rows read off the statement (unbound fid => EBADF, no backend call, table unchanged; clunk/remove always unbind; walk/attach/xattrwalk bind only on success; create rebinds to an open file; open/read/write/readdir/fsync mode checks; opened-directory refusals), with the fid-table invariant as pre- and postcondition of each handler and LookupFID/InsertFID/DeleteFID proved against their bodies.",
-         "markChildDeleted and renameChildTo have assumed (UNVERIFIED) contracts (DecRef and the registration helpers are verified); xattr read/write sub-protocol rows are partial. Trusted: front end, VC generator, solvers.",
+         "markChildDeleted and renameChildTo are verified for what they call and with which arguments, but that they preserve the tree invariants is assumed (assumed_ensures, listed); notifyDelete / notifyNameChange (recursion over subtrees) are abstract; xattr read/write sub-protocol rows are partial. Trusted: front end, VC generator, solvers.",
          "4-C04"),
  "C05": ("Proof of per-function reference/ownership deltas with ghost state: owed(r) (references the invocation holds) and own(f) (File ownership): every DecRef drops a held reference, every handler returns with owed unchanged and no File left owned locally (error paths close what they obtained), a File is stored into a fidRef only when freshly obtained (no sharing), Close only on owned Files, no method on a closed File. Table functions proved against their bodies.",
-         "The global 'exactly once' follows from the deltas by a counting lemma that is argued on paper, not machine checked. DecRef (close only at zero, only its own file, parent dropped only at zero), TryIncRef (never resurrects) and removeWithName's pin/unpin are verified against their bodies; inside DecRef 'the file of a live reference is still open and owned by it' is presumed (listed). connState.stop is not under contract. Schedules: atomics treated as sequential. Panic exits are not claimed for reference balance.",
+         "The global 'exactly once' follows from the deltas by a counting lemma that is argued on paper, not machine checked. DecRef (close only at zero, only its own file, parent dropped only at zero), TryIncRef (never resurrects) and removeWithName's pin/unpin are verified against their bodies; inside DecRef 'the file of a live reference is still open and owned by it' is presumed (listed). connState.stop is verified for its order (wait for the handlers with no lock held, close both ends, then drop the table's reference of each entry) but not for visiting every entry (map iteration is modelled as arbitrary present keys). Schedules: atomics treated as sequential. Panic exits are not claimed for reference balance.",
          "4-C05"),
  "C06": ("Proof of the structural half: handleRequest sends at most one reply, exactly one per handled request, with the request's tag, under sendMu, after StartTag succeeded, never while holding the receive token and only after a receiver exists; connState.handle always returns a reply whose type is the request's R-type or Rlerror (all 33 handlers verified against the handler interface contract), ENOSYS for non-requests, EFAULT on panic; tags untouched by handlers.",
          "NOT decided by exploration: the scheduling half; what is proved towards it: no backend call is made with the global lock write-held outside rename/remove, no mutex is held at a blocking channel receive, hand-off before handling. F5 (Tflush of its own tag) and F13 (rename/teardown self-deadlock) fixed.",
@@ -29,7 +29,7 @@ CLAIMED = {
          "Mutual exclusion of sync.RWMutex is trusted; exclusion is derived from lock sets, not explored over schedules. Files not yet stored in a fidRef are private to the invocation. Known findings F9, F10 (known_findings.txt).",
          "4-C07"),
  "C08": ("Proof of fencing as call-site preconditions (no path-dependent backend call through a fidRef whose path node is deleted; Link target and both rename directories included), refusal rows (ENOENT for walks, EINVAL otherwise, no backend call), rename/remove use the name registered for the reference, tree updates only after backend success, path-node invariants (no nil / self child; live path below live paths) preserved by every handler.",
-         "markChildDeleted / renameChildTo / notify* (recursion over subtrees) have assumed (UNVERIFIED) contracts; removeWithName is verified for lock balance, call preconditions and the child-node entry but not for 'every reference under the name is visited' (map iteration is modelled as arbitrary present keys). Object-identity-through-rename is argued on paper.",
+         "notifyDelete / notifyNameChange (recursion over subtrees) have assumed (UNVERIFIED) contracts; markChildDeleted and renameChildTo are verified for call discipline (which node, which name, fencing of the detached node) with the invariant preservation assumed; removeWithName is verified for lock balance, call preconditions and the child-node entry but not for 'every reference under the name is visited' (map iteration is modelled as arbitrary present keys). Object-identity-through-rename is argued on paper.",
          "4-C08"),
  "C09": ("Proof, for all strings: checkSafeName <=> safe(name); safe(name) is a precondition of every name-bearing File method, discharged at every call site; walks advance one component at a time and only from references whose recorded mode is a directory (loop invariants of doWalk); every name registered in the path tree stays safe (invariant), so names returned by nameFor are safe.",
          "strings.Contains is an uninterpreted atom shared by code and specification. renameChildTo's contract (which re-registers names) is assumed; addChild/addChildLocked/removeChild are verified.",
